@@ -600,6 +600,13 @@ def special_binop(I, op, a, b):
     if op == "^" and isinstance(a, (set, frozenset)) and isinstance(b, (set, frozenset)):
         return a ^ b
     if op == "|" and isinstance(a, dict) and isinstance(b, dict):
+        if isinstance(a, collections.defaultdict) or isinstance(b, collections.defaultdict):
+            # defaultdict.__or__ / __ror__ (3.9+): the result is a defaultdict with the default_factory of the defaultdict operand
+            d = collections.defaultdict(None)
+            d.default_factory = a.default_factory if isinstance(a, collections.defaultdict) else b.default_factory
+            d.update(a)
+            d.update(b)
+            return d
         d = dict(a)
         d.update(b)
         return d
